@@ -251,6 +251,15 @@ func (s *Syncer[H]) sync(ctx context.Context) {
 			"attempted_height", subjHead.Height(),
 		)
 		log.Warn("PLEASE REPORT THIS AS A BUG")
+		// drop the pending headers that got stored via another route, s.t. they don't stay behind as a stale
+		// subjective head
+		for {
+			headersRange, ok := s.pending.First()
+			if !ok || len(headersRange.Get(storeHead.Height())) == 0 {
+				break
+			}
+			headersRange.Remove(storeHead.Height())
+		}
 		return // should never happen, but just in case
 	}
 
